@@ -168,6 +168,7 @@ def execute(chunk):
             if p['family'] == 'seed-after-consumption':
                 ref = None
                 ref_states = None
+                more_ref = {}
                 for ci, c in enumerate(p['consumptions']):
                     consume(c['junk'], c['py'], c['np'], c['torch'])
                     if c.get('other_model'):
@@ -197,6 +198,21 @@ def execute(chunk):
                         m.fit(data['X'], data['y'], data['Xv'], data['yv'])
                     out = outputs(m, data, is_class)
                     assert torch.get_num_threads() == threads
+                    # further data sets fitted with the same seed and configuration at the same point of the process history
+                    # (a difference that needs particular data to show has several chances per history)
+                    if ci == 0 or c.get('other_model_fit') or c.get('other_model'):
+                        for dj in p.get('more_data', []):
+                            dd = data_for(p, dj, p['n'], p['task'], noise=p.get('noise', 0.1))
+                            mj = build(p, p['seed'])
+                            with quiet():
+                                mj.fit(dd['X'], dd['y'], dd['Xv'], dd['yv'])
+                            oj = outputs(mj, dd, is_class)
+                            if ci == 0:
+                                more_ref[dj] = oj
+                            elif dj in more_ref and any(oj[api] != more_ref[dj][api] for api in oj):
+                                res['failures'].append({'signature': 'C17:seed-not-reproducible:predict',
+                                                        'detail': f'same random_state={p["seed"]}, data set {dj}, consumption {c} vs '
+                                                                  f'{p["consumptions"][0]}: outputs differ'})
                     if ref is None:
                         ref, ref_states = out, states
                         info = {'depth': max(xc.tree_depth(t) for t in m.trees), 'leaves': sum(xc.n_leaves(t) for t in m.trees),
@@ -328,6 +344,8 @@ def gen_cases(run):
             cons[-1]['other_model'] = True
             cons[-2]['other_model_fit'] = True
             p['consumptions'] = cons
+            if p['tuning'] and p.get('temp_space') is None:
+                p['more_data'] = [r.randint(0, 10 ** 6) for _ in range(5)]
             cases.append(p)
     # (b) histories
     hist_cfgs = [
@@ -358,8 +376,10 @@ def gen_cases(run):
         dict(split_method='top_vector_agop_on_subset', task='reg1', n=80, kernel='l1', d=10, cat=[3, 4], iters=2, max_leaf_size=40,
              tuning=False),
     ]
-    for rep in range(reps):
+    for rep in range(3 * reps):
         for k, cfg in enumerate(hist_cfgs):
+            if rep >= reps and not cfg.get('n_tree_iters'):
+                continue     # iterated tree building: whether a stale routing mode changes the winning tree depends on the data
             p = dict(base, **cfg)
             p.update(family='refit-vs-fresh', seed=r.randint(0, 10 ** 6), seed2=r.randint(0, 10 ** 6), dseed=r.randint(0, 10 ** 6))
             tie_prone = p['tuning_metric'] == 'accuracy'
